@@ -294,4 +294,19 @@ def utf8Valid : Bytes → Bool
       | _ => false
     else false
 
+/-! ### checked conversions of stackitem/conversion.go (used by interops; `none` = error) -/
+
+/-- `ToInt64`, `ToInt32`, `ToUint8`, `ToUint16`, `ToUint32`, `ToUint64`: the integer value if it lies in
+`[lo, hi]`. -/
+def Item.toIntBounded (lo hi : Int) (x : Item) : Option Int :=
+  x.toInteger.bind fun n => if lo ≤ n ∧ n ≤ hi then some n else none
+
+/-- `ToString`: the bytes if they are valid UTF-8. -/
+def Item.toUtf8 (h : Heap) (x : Item) : Option Bytes :=
+  (x.toBytes h).bind fun b => if utf8Valid b then some b else none
+
+/-- `ToUint160` / `ToUint256`: the bytes if there are exactly `n` of them. -/
+def Item.toFixedBytes (h : Heap) (n : Nat) (x : Item) : Option Bytes :=
+  (x.toBytes h).bind fun b => if b.length = n then some b else none
+
 end NeoModel.Vm
